@@ -45,7 +45,21 @@ MANIFEST = {
                                   "free-running code-to-spec trace validation + TLC-judged observed traces"),
 }
 
-PROPS = {"C10": ["AnswerIsFate", "AnsweredAtMostOnce", "NoCallerLeftWaiting", "NoCallerLeftWaitingAboveTip"]}
+PROPS = {"C10": ["AnswerIsFate", "AnsweredAtMostOnce", "NoCallerLeftWaiting", "NoCallerLeftWaitingAboveTip"],
+         # slice of C17 (run_slice_c17, called by the Shutdown family's check): Stop with a scan in flight
+         "C17": ["StopBoundedWork", "StopReturnsDuringScan"]}
+
+ENV_OPS = ("BatchStart", "GetHash", "FilterMatch", "GetBlock", "Tail")
+
+C17_ASSUMPTIONS = [
+    "UTXO-scan slice: 'bounded time' for Stop with a scan in flight is measured in the gated UtxoScan driver as the "
+    "number of environment calls (BestSnapshot, GetBlockHash, filter fetch + match, GetBlock) the real batch manager "
+    "still makes after Stop was called until it has returned - exact and independent of machine load; bounded = at "
+    "most the call in flight plus one per-height round of calls (4), whatever the number of heights left (chains "
+    "with up to 7 heights left: a scan that walks on makes >= 2 calls per height)",
+    "UTXO-scan slice: after Stop the environment keeps answering every call successfully and at once (filters "
+    "served from the cache / filter DB, the case in which nothing else ends the scan)",
+]
 
 CODE_VERSION = json.load(open(os.path.join(SPEC, "code_version.json")))
 
@@ -126,6 +140,33 @@ CHR2 = [  # 4 heights: the shared script across transactions of different blocks
 CATR2 = [(1, 0, 1), (1, 1, 1), (2, 0, 2), (2, 1, 2), (2, 1, 1), (2, 1, 3), (2, 0, 1)]
 
 
+# Stop with a scan in flight (slice of C17): long stretches of heights whose filters do not match what is
+# watched (the normal case of a spend check), a matching height in the middle, the output spent / not spent
+CHL = [  # 8 heights
+    [tx(1, 2)],                                   # h1 creates A:0, A:1
+    [tx(3, 1, (9, 0))],                           # h2..h4 nothing that is watched
+    [tx(4, 1, (9, 1))],
+    [tx(5, 1, (9, 2))],
+    [tx(6, 1, (1, 0))],                           # h5 spends A:0
+    [tx(7, 1, (9, 3))],                           # h6..h8 nothing that is watched; A:1 is never spent
+    [],
+    [tx(8, 1, (9, 4))],
+]
+CATL = [(1, 0, 1), (1, 1, 1), (1, 1, 3), (1, 0, 6)]
+# a stretch of MATCHING heights (every block of the stretch creates another output paying to the watched
+# script, so each is fetched: the checks around GetBlock), then non-matching ones
+CHM = [  # 7 heights
+    [tx(1, 2, scr=[S, S])],                       # h1 creates A:0, A:1, both paying to S
+    [tx(3, 1, (9, 0), scr=[S])],                  # h2, h3 match by script alone
+    [tx(4, 1, (9, 1), scr=[S])],
+    [tx(5, 1, (1, 0))],                           # h4 spends A:0
+    [tx(6, 1, (9, 2), scr=[S])],                  # h5 matches (while A:1 is watched)
+    [tx(7, 1, (9, 3))],                           # h6, h7 do not
+    [tx(8, 1, (9, 4))],
+]
+CATM = [(1, 0, 1), (1, 1, 1), (1, 1, 2)]
+
+
 def tla_chain(ch):
     def t(x):
         ins = ", ".join("<<%d, %d>>" % (a, b) for a, b in x["ins"])
@@ -180,6 +221,15 @@ def random_chain(rng, H):
 
 def config(tier, seed):
     rng = random.Random(seed * 7919 + 17)
+    if tier in ("c17", "c17thorough"):
+        # slice of C17: Stop at every gate of a scan over long stretches of non-matching / matching heights,
+        # the tip growing during the scan, filter false positives; thorough: two requests (sl), a failing / stale
+        # answer and false positives (sm), 500 random walks each
+        big = tier == "c17thorough"
+        return [dict(name="sl", chains=[CHL], cat=CATL, best0s="{6, 8}", MaxReq=2 if big else 1,
+                     MaxFail=0, AllowStop=True, FalsePos=True, free=0),
+                dict(name="sm", chains=[CHM], cat=CATM, best0s="{5, 7}", MaxReq=1,
+                     MaxFail=1 if big else 0, AllowStop=True, FalsePos=big, free=0)]
     if tier == "quick":
         return [dict(name="q3", chains=[CH3], cat=CAT3, best0s="{2, 3}", MaxReq=2, MaxFail=1,
                      AllowStop=True, FalsePos=True, free=1500),
@@ -291,8 +341,15 @@ class _Acc:
         self.drift_steps = self.drift_n = 0
         self.drift_samples = []
         self.hung = self.panics = 0
+        # Stop with a scan in flight: per number of heights the scan had left when Stop was called, the
+        # largest number of environment calls the real batch manager made afterwards
+        self.stop_traces = 0
+        self.post_by_left = {}
 
     def merge(self, o):
+        self.stop_traces += o.stop_traces
+        for k, v in o.post_by_left.items():
+            self.post_by_left[k] = max(self.post_by_left.get(k, 0), v)
         self.verdict["violations"] += o.verdict["violations"]
         for k in ("n_lines", "wall", "raw"):
             self.verdict[k] += o.verdict[k]
@@ -338,6 +395,16 @@ class _Acc:
         self.drift_n += dn
         self.drift_samples += dsm[:2]
         for t in chunk:
+            left, n = None, 0
+            for s in t["steps"]:
+                if s["act"]["op"] == "Stop":
+                    o = s["obs"]
+                    left = max(0, o["best"] - o["h"]) if o.get("h") else 0
+                elif left is not None and s["act"]["op"] in ENV_OPS:
+                    n += 1
+            if left is not None:
+                self.stop_traces += 1
+                self.post_by_left[left] = max(self.post_by_left.get(left, 0), n)
             self.hung += sum(1 for s in t["steps"] if s["obs"].get("pc") == 9)
             self.panics += sum(1 for s in t["steps"] if s["obs"].get("pc") == 8)
             if len(self.light) < 3 or t.get("error"):
@@ -499,7 +566,7 @@ def run(prop_id, tier, seed, replay=None):
             g = core.Graph.load(tlc)
             shutil.rmtree(tlc.workdir, ignore_errors=True)
             paths, unreach = core.edge_cover(g, crng)
-            if tier == "thorough":
+            if tier in ("thorough", "c17thorough"):
                 paths += core.random_walks(g, 500, 40, crng)
             pf = os.path.join(sc, "paths-%s.ndjson" % cfg["name"])
             core.write_paths(g, paths, pf)
@@ -520,10 +587,13 @@ def run(prop_id, tier, seed, replay=None):
                   "states": tlc.distinct, "edges": ne, "tlc_wall_s": round(tlc.wall, 1),
                   "paths": len(paths), "drift_paths": dn, "hung_steps": a.hung,
                   "panic_steps": a.panics, "model_violating_edges": nv, "free_running": fr}
+            if cfg["AllowStop"]:
+                st["paths_with_stop"] = a.stop_traces
+                st["env_calls_after_stop_max_by_heights_left"] = {str(k): v for k, v in sorted(a.post_by_left.items())}
             return a, st, tlc, [len(p) for p in paths], unreach
 
         cfgs = config(tier, seed)
-        if tier == "quick":
+        if tier in ("quick", "c17"):
             # small graphs: the configurations run side by side (each is mostly one TLC / driver process)
             from concurrent.futures import ThreadPoolExecutor
             with ThreadPoolExecutor(max_workers=3) as ex:
@@ -548,7 +618,77 @@ def run(prop_id, tier, seed, replay=None):
         return family.finish(prop_id, tier, seed, t0, tot, g, all_paths, acc.light, acc.verdict,
                              (acc.drift_steps, acc.drift_n, acc.drift_samples),
                              {"configs": per_cfg, "code_version": CODE_VERSION,
-                              "edges_only_reachable_through_model_violation": unreach_tot},
-                             ASSUMPTIONS, label=label)
+                              "edges_only_reachable_through_model_violation": unreach_tot,
+                              "env_calls_after_stop_max_by_heights_left":
+                                  {str(k): v for k, v in sorted(acc.post_by_left.items())}},
+                             ASSUMPTIONS + (C17_ASSUMPTIONS if prop_id == "C17" else []), label=label)
     finally:
         shutil.rmtree(sc, ignore_errors=True)
+
+
+# --------------------------------------------------------------------------
+# slice of C17 (Stop with a UTXO scan in flight), called by the Shutdown family's check
+# --------------------------------------------------------------------------
+def is_my_replay(replay_file):
+    """a saved trace of this family (it carries its chain table)"""
+    try:
+        return bool(json.load(open(replay_file))["trace"].get("chains"))
+    except Exception:
+        return False
+
+
+def run_slice_c17(tier, seed, replay=None):
+    """The UtxoScan model over chains with long stretches of non-matching / matching heights, Stop enabled at
+    every gate of the scan; every transition replayed on the real UtxoScanner, each path that contains Stop
+    run on until the batch manager has returned; judged for PROPS["C17"] (StopBoundedWork: the number of
+    environment calls after Stop is bounded independently of the heights left; StopReturnsDuringScan).
+    Prints KNOWN-FINDING / VIOLATION lines for C17, writes its evidence into a scratch directory and returns
+    (exit code, coverage dict)."""
+    evdir = core.scratch("c17ux")
+    old = os.environ.get("VERIF_EVIDENCE_DIR")
+    os.environ["VERIF_EVIDENCE_DIR"] = evdir
+    try:
+        rc = run("C17", "c17thorough" if tier == "thorough" else "c17", seed, replay=replay)
+        cov = json.load(open(os.path.join(evdir, "C17.json")))["coverage"]
+    finally:
+        if old is None:
+            os.environ.pop("VERIF_EVIDENCE_DIR", None)
+        else:
+            os.environ["VERIF_EVIDENCE_DIR"] = old
+        shutil.rmtree(evdir, ignore_errors=True)
+    return rc, cov
+
+
+def merge_slice_c17(tier, seed, rc=0):
+    """Call after the C17 check has written evidence/C17.json: runs run_slice_c17 and adds its measured
+    coverage to that evidence file; returns max(rc, exit code of the slice)."""
+    t0 = time.time()
+    rc2, cov = run_slice_c17(tier, seed)
+    fn = os.path.join(os.environ.get("VERIF_EVIDENCE_DIR", os.path.join(core.VERIF, "evidence")), "C17.json")
+    ev = json.load(open(fn))
+    c = ev["coverage"]
+    c["utxo_scan_in_flight_slice_utxoscan"] = {k: v for k, v in cov.items() if k != "samples"}
+    for k in ("states", "transitions", "traces_validated_against_impl"):
+        c[k] = int(c.get(k, 0) or 0) + int(cov.get(k, 0) or 0)
+    c["samples"] = list(c.get("samples", [])) + cov.get("samples", [])[:1]
+    ev["assumptions"] = list(ev.get("assumptions", [])) + [a for a in C17_ASSUMPTIONS
+                                                           if a not in ev.get("assumptions", [])]
+    ev["violations"] = ev.get("violations", 0) + int(cov.get("new_violations", 0) or 0)
+    ev["wall_s"] = round(ev.get("wall_s", 0) + time.time() - t0, 2)
+    json.dump(ev, open(fn + ".tmp", "w"), indent=1)
+    os.replace(fn + ".tmp", fn)
+    return max(rc, rc2)
+
+
+if __name__ == "__main__":
+    # python3 -m vlib.families.utxoscan [quick|thorough] [seed]   - the C17 slice alone
+    tier = sys.argv[1] if len(sys.argv) > 1 else "quick"
+    seed = int(sys.argv[2]) if len(sys.argv) > 2 else 1
+    try:
+        rc, cov = run_slice_c17(tier, seed)
+    except core.MachineryError as e:
+        print("MACHINERY ERROR:", e, file=sys.stderr)
+        sys.exit(2)
+    json.dump({k: v for k, v in cov.items() if k != "samples"}, sys.stdout, indent=1)
+    print()
+    sys.exit(rc)
